@@ -116,7 +116,7 @@ func vObsHybrid(idx HybridSearchIndex) []vObs {
 		f bool
 	}
 	for _, q := range []hq{{v: []float32{1, 0.25}}, {t: "alpha"}, {f: true}, {v: []float32{0, 2}, t: "beta"}, {v: []float32{1, 0}, f: true}} {
-		s := idx.NewSearch().WithK(10)
+		s := idx.NewSearch().WithK(1000) // never truncates: a flush may legitimately reorder BM25 scores
 		if q.v != nil {
 			s = s.WithVector(vCopyVec(q.v))
 		}
@@ -833,6 +833,38 @@ func vSerShards(mode, tier string) []vShard {
 				s.prefixes(nil)
 			}
 			vBFS(c, s, depth)
+			// size sweep: every n in 1..maxSweep, every third removed (not flushed)
+			maxSweep := 40
+			if tier == "thorough" {
+				maxSweep = 150
+			}
+			for n := 4; n <= maxSweep; n++ {
+				if c.Expired() {
+					return
+				}
+				if k.hnsw && n > 8 {
+					break // beyond ef = 8 the graph search is approximate and a flush may change answers
+				}
+				w := &vSerSys{c: c, k: k, mode: mode, maxN: n + 1, contDepth: 0}
+				w.Reset()
+				var hist []vOp
+				for i := 0; i < n; i++ {
+					op := vOp{K: "Add", A: i + 1, B: i % k.nvals}
+					w.Apply(op, hist, false)
+					hist = append(hist, op)
+				}
+				for i := 2; i < n; i += 3 {
+					op := vOp{K: "Remove", A: i + 1}
+					w.Apply(op, hist, i+3 >= n && mode == "c07")
+					hist = append(hist, op)
+				}
+				if mode == "c16" && n%4 == 0 {
+					w.prefixes(vHistStrings(hist))
+				}
+				c.Transitions += int64(len(hist))
+				c.Traces++
+				c.NewState(fmt.Sprintf("%s sweep %d", k.name, n))
+			}
 		}})
 	}
 	return sh
